@@ -426,3 +426,172 @@ func c17DiffVisible(c *Ctx) {
 	}
 	c.R.Cond(ok, rule, core.FuncName(inner)+": a tombstone reads as absent", c.P.Pos(inner.Pos()), "TombstoneSinceEpochNanos != 0 -> nil", "innerValue does not map tombstoned entries to nil")
 }
+
+// ---- C17.merge-result: the merged tree is the join, never one side taken whole ----------------------
+
+func init() {
+	register(&Rule{Name: "C17.merge-result", Min: 4, Run: c17MergeResult,
+		Doc: "Tree.Merge replaces the receiving tree only by mergeTrees(own tree, other tree); mergeTrees returns a clone of the primary into which every graft was diffed with the merge callback"})
+	for _, id := range []string{"C17", "C01", "C03", "C04"} {
+		byProp[id] = append(byProp[id], "C17.merge-result")
+	}
+	explain["C17"] += " merge-result: the only value ever assigned to the receiving tree in Tree.Merge is the result of mergeTrees called with the receiver's own tree as primary and the other tree as graft; mergeTrees' successful result is the clone of the primary (or the primary itself when there is nothing to graft) after DiffIter ran on it for each element of the graft list with a callback built from the merge function and that same clone. A shortcut that adopts one side wholesale ('the other tree descends from ours') loses whatever the other side lacks."
+	byProp["C01"] = append(byProp["C01"], "C07.compare-only", "C07.convert-range")
+	explain["C01"] += " compare-only / convert-range (shared with C07): the tree merge is a merge-join in key order followed by insert-by-key, so a comparator that equates distinct keys (integers beyond 2^53 compared through float64) conflates two writers' rows, and which one survives depends on the merge order."
+	explain["C04"] += " merge-result (shared with C17): an open that finds leftovers of an interrupted commit (parent and child both listed) must still fold them entry by entry; adopting the child wholesale drops other clients' acknowledged rows."
+}
+
+func c17MergeResult(c *Ctx) {
+	const rule = "C17.merge-result"
+	merge := mustFunc(c, "kv/internal/crdt", "*Tree", "Merge")
+	mt := mustFunc(c, "kv/internal/crdt", "", "mergeTrees")
+	mastF := mustField(c, "kv/internal/crdt", "Tree", "Mast")
+	if merge == nil || mt == nil || mastF == nil {
+		return
+	}
+	name := core.FuncName(merge)
+	sc := c.Scope(merge)
+	recv := merge.Params[0]
+	other := merge.Params[1+1] // ctx, other
+	if len(merge.Params) >= 3 {
+		other = merge.Params[2]
+	}
+	loadsMastOf := func(v ssa.Value, root ssa.Value) bool {
+		v = an.Unwrap(v)
+		return an.FieldOfLoad(v) == mastF && an.ExprRoot(v) == root
+	}
+	n := 0
+	for _, f := range sc.Funcs {
+		for _, st := range an.StoresToField(f, mastF) {
+			if an.ExprRoot(st.Addr) != ssa.Value(recv) && sc.ArgOfParam(an.ExprRoot(st.Addr)) != ssa.Value(recv) {
+				continue
+			}
+			n++
+			key := fmt.Sprintf("%s: tree replaced by the join", name)
+			if n > 1 {
+				key += fmt.Sprintf("#%d", n)
+			}
+			good := false
+			why := "the receiving tree is assigned a value that is not the result of mergeTrees(own tree, other tree): a merge that adopts one side wholesale loses the entries only the other side has"
+			if ex, ok := an.Unwrap(st.Val).(*ssa.Extract); ok && ex.Index == 0 {
+				if cl, ok := ex.Tuple.(*ssa.Call); ok && cl.Common().StaticCallee() == mt {
+					args := cl.Common().Args
+					primaryOK := len(args) >= 5 && loadsMastOf(args[3], recv)
+					graftOK := false
+					if len(args) >= 5 {
+						an.DependsOn(args[4], func(v ssa.Value) bool {
+							if loadsMastOf(v, other) {
+								graftOK = true
+							}
+							return false
+						})
+					}
+					if primaryOK && graftOK {
+						good = true
+					} else {
+						why = fmt.Sprintf("mergeTrees is not called with the receiver's tree as primary (%v) and the other tree as graft (%v)", primaryOK, graftOK)
+					}
+					if ok, w := sc.SuccessDominates(cl, st); !ok {
+						good, why = false, "the result of a failed mergeTrees can be installed: "+w
+					}
+				}
+			}
+			c.R.Cond(good, rule, key, c.P.Pos(st.Pos()), "c.Mast = mergeTrees(…, c.Mast, other.Mast) after it succeeded", why)
+		}
+	}
+	if n == 0 {
+		c.R.Bad(rule, name+": tree replaced by the join", c.P.Pos(merge.Pos()), "Merge never installs a merged tree")
+	}
+	// mergeTrees
+	mname := core.FuncName(mt)
+	if len(mt.Params) < 5 {
+		c.R.Unk(rule, mname+": shape", c.P.Pos(mt.Pos()), "unexpected signature")
+		return
+	}
+	primary, grafts := mt.Params[3], mt.Params[4]
+	var clone *ssa.Alloc
+	for _, call := range an.Calls(mt) {
+		if an.CalleeIs(call, mastPkg, "Mast", "Clone") && an.Unwrap(an.RecvValue(call)) == ssa.Value(primary) {
+			// the alloc the clone is stored into
+			if cv, ok := call.(ssa.Value); ok {
+				for _, r := range *cv.Referrers() {
+					if ex, ok := r.(*ssa.Extract); ok && ex.Index == 0 {
+						for _, rr := range *ex.Referrers() {
+							if s, ok := rr.(*ssa.Store); ok {
+								if al, ok := s.Addr.(*ssa.Alloc); ok {
+									clone = al
+								}
+							}
+						}
+					}
+				}
+			}
+		}
+	}
+	c.R.Cond(clone != nil, rule, mname+": works on a clone of the primary", c.P.Pos(mt.Pos()), "newTree = primary.Clone()", "no clone of the primary tree found: the merge would modify (or not start from) the receiving tree")
+	if clone == nil {
+		return
+	}
+	// successful returns: the clone, or the primary under len(grafts)==0
+	k := 0
+	for _, b := range mt.Blocks {
+		ret, ok := b.Instrs[len(b.Instrs)-1].(*ssa.Return)
+		if !ok || !an.IsNilConst(an.RetErr(ret)) {
+			continue
+		}
+		k++
+		v := an.RetVal(ret, 0)
+		good := v == ssa.Value(clone)
+		if v == ssa.Value(primary) {
+			// only when there is nothing to graft
+			good = an.GuardedByValue(an.Edge{From: b}, func(x ssa.Value) bool {
+				bo, ok := x.(*ssa.BinOp)
+				if !ok || bo.Op != token.EQL {
+					return false
+				}
+				cl, ok := bo.X.(*ssa.Call)
+				if !ok {
+					return false
+				}
+				bi, ok := cl.Call.Value.(*ssa.Builtin)
+				return ok && bi.Name() == "len" && cl.Call.Args[0] == ssa.Value(grafts) && an.ExprKey(bo.Y) == "const:0:int"
+			}, true)
+		}
+		c.R.Cond(good, rule, fmt.Sprintf("%s: success return #%d", mname, k), c.P.Pos(ret.Pos()), "returns the merged clone (or the primary when there is nothing to graft)", "a successful return hands back something other than the clone every graft was merged into")
+	}
+	// DiffIter on the clone for each graft element with a callback over the clone
+	nd := 0
+	for _, call := range an.Calls(mt) {
+		if !an.CalleeIs(call, mastPkg, "Mast", "DiffIter") {
+			continue
+		}
+		nd++
+		args := call.Common().Args // recv, ctx, graft, f
+		recvOK := args[0] == ssa.Value(clone)
+		elemOK := false
+		if ld, ok := args[2].(*ssa.UnOp); ok {
+			if ia, ok := ld.X.(*ssa.IndexAddr); ok && ia.X == ssa.Value(grafts) {
+				elemOK = true
+			}
+		}
+		cbOK := false
+		if cl, ok := args[3].(*ssa.Call); ok && calleeLabel(cl) == "ToDiffFunc" {
+			for _, a := range cl.Call.Args {
+				if a == ssa.Value(clone) {
+					cbOK = true
+				}
+			}
+			if cl.Call.Args[0] != ssa.Value(mt.Params[1]) {
+				cbOK = false
+			}
+		}
+		inLoop := an.InCycle(call.Block())
+		// the loop is left normally only through the range's own exit
+		c.R.Cond(recvOK && elemOK && cbOK && inLoop, rule, mname+": every graft is diffed into the clone", c.P.Pos(call.Pos()),
+			"for each element of grafts: clone.DiffIter(graft, mergeFunc.ToDiffFunc(clone))",
+			fmt.Sprintf("DiffIter is not run on the clone (%v) for each graft (%v, in loop %v) with the merge function's callback over the clone (%v)", recvOK, elemOK, inLoop, cbOK))
+	}
+	if nd == 0 {
+		c.R.Bad(rule, mname+": every graft is diffed into the clone", c.P.Pos(mt.Pos()), "mergeTrees never diffs a graft into the clone")
+	}
+}
